@@ -952,6 +952,10 @@ func (ds *AnySource) PrepareRun(Npresamples int, Nsamples int) error {
 			ts = &defaultTS
 		}
 		dsp.TriggerState = *ts
+		// Keep the trigger state's copy of the record lengths in sync, as ConfigureTrigger and
+		// ConfigurePulseLengths do: TrimStream relies on it to retain enough history between blocks.
+		dsp.EMTState.nsamp = int32(Nsamples)
+		dsp.EMTState.npre = int32(Npresamples)
 
 		// Publish Records and Record Summaries over ZMQ. Not optional at this time.
 		dsp.SetPubRecords()
